@@ -4,13 +4,19 @@
    not mechanised.
    (1) wait list: whenever a side has no handle left, or the channel is closed, nobody is
        left in the wait list - every blocked / pending operation has been released (Atomic);
-   (2) protocol: no parked owner is left without a wake-up once its peer is done; the peer's
-       wake is at most 5 own steps with no loop (Sig.v: claimer_events has no cycle); an owner
-       that observes state < LOCKED leaves its wait;
+   (2) protocol (SigLive.v, over every reachable protocol state): no parked owner is left without
+       a wake-up once its peer is done; a peer that has claimed a signal is never blocked and is
+       done after at most 7 own steps; once the peer is done the owner always has a genuine step
+       (not a pause, not a spurious wake-up) until its wait has ended, and at most orank s of them (5 at most for the pinned source); a
+       timed owner that nobody claims finishes within 6 genuine steps, the passing of the
+       deadline being one of them;
+   (2') atomic channel: the operation at the head of the wait list is completed, and its thread or
+       latest waker woken, by the critical section of the next counterpart operation (every send
+       kind runs cs_send, every receive kind cs_recv);
    (3) async: the waker woken is the one registered by the latest poll (Atomic: poll under
        the lock replaces the registered waker while the future is listed). *)
 From KV Require Import Base Chan Atomic Mem Sig.
-From KV.proofs Require Import Inv StepInv SigProof.
+From KV.proofs Require Import Inv StepInv Cases Progress SigProof SigLive.
 
 Theorem c06_no_waiter_left_behind : forall b cap ls,
   let a := fst (arun (init b cap) ls) in
@@ -37,6 +43,41 @@ Proof.
   destruct (s_viol s); simpl in H; discriminate.
 Qed.
 
+(* "a receive blocked on an empty channel completes once a send arrives", and the converse *)
+Theorem c06_send_completes_first_blocked_receiver : forall a x k r,
+  Inv a -> recv_count (ch a) <> 0%N -> recv_blocking (ch a) = true -> wait_list (ch a) = k :: r ->
+  exists o, lookup k (objs a) = Some o /\ is_send o = false /\ o_sig o = SLocked /\
+    cs_send a x = SCSent (mkConf (set_wait (ch a) r) (update k (fin_deliver o x) (objs a)) (handles a)) (wake_of o).
+Proof. exact send_completes_first_blocked_receiver. Qed.
+
+Theorem c06_recv_completes_first_blocked_sender : forall a k r,
+  Inv a -> recv_count (ch a) <> 0%N -> recv_blocking (ch a) = false -> wait_list (ch a) = k :: r ->
+  exists o y v a', lookup k (objs a) = Some o /\ is_send o = true /\ o_val o = Some y /\
+    cs_recv a = RCGot v a' (wake_of o) /\
+    lookup k (objs a') = Some (fin_take o) /\ wait_list (ch a') = r.
+Proof. exact recv_completes_first_blocked_sender. Qed.
+
+(* progress of the hand-off: the peer never waits, the owner finishes on its own once the peer is done *)
+Theorem c06_claiming_peer_never_blocks : forall i s,
+  In i sinits -> reach (snext actual_ords) i s -> peer_busy s = true ->
+  peer_next s <> [] /\ forall s', In s' (peer_next s) -> crank (s_c s') < crank (s_c s).
+Proof. exact claiming_peer_never_blocks. Qed.
+
+Theorem c06_owner_finishes_once_peer_is_done : forall i s,
+  In i sinits -> reach (snext actual_ords) i s -> s_c s = CDone ->
+  (s_o s = OEnded \/ own_next s <> []) /\
+  forall s', In s' (own_next s) -> s_c s' = CDone /\ orank s' < orank s.
+Proof. exact owner_finishes_once_peer_is_done. Qed.
+
+Theorem c06_owner_steps_bounded : forall i s p,
+  In i sinits -> reach (snext actual_ords) i s -> s_c s = CDone -> opath s p -> length p <= orank s.
+Proof. exact owner_steps_bounded. Qed.
+
+Theorem c06_timed_owner_alone_finishes : forall i s,
+  In i sinits -> reach (snext actual_ords) i s -> alone_timed s = true ->
+  (s_o s = OEnded \/ next3 s <> []) /\ forall s', In s' (next3 s) -> trank s' < trank s.
+Proof. exact timed_owner_alone_finishes. Qed.
+
 (* a poll of a listed future with another waker registers that waker (so the peer wakes the latest one) *)
 Theorem c06_latest_waker_registered : forall a f o w,
   o_fst o = FWaiting -> o_sig o = SLocked -> o_waker o <> Some w ->
@@ -52,9 +93,23 @@ Print Assumptions c06_no_waiter_left_behind.
 Print Assumptions c06_unfinished_waiters_are_listed.
 Print Assumptions c06_no_lost_wakeup.
 Print Assumptions c06_latest_waker_registered.
+Print Assumptions c06_send_completes_first_blocked_receiver.
+Print Assumptions c06_recv_completes_first_blocked_sender.
+Print Assumptions c06_claiming_peer_never_blocks.
+Print Assumptions c06_owner_finishes_once_peer_is_done.
+Print Assumptions c06_owner_steps_bounded.
+Print Assumptions c06_timed_owner_alone_finishes.
 
 Example c06_witness :
   let ls := [LMkRecv 5 1; LPoll 5 1; LPoll 5 2; LRecv 6 1; LDropH 0]%N in
   map (fun o => (r_res o, r_wakes o)) (snd (arun (init true 0) ls)) =
   [(RUnit, []); (RPending, []); (RPending, []); (RBlocked, []); (RUnit, [2])]%N.
+Proof. vm_compute. reflexivity. Qed.
+
+(* the progress statements are not vacuous: many reachable states have a finished peer, a busy peer, a lonely
+   timed owner, and some owner needs several genuine steps (the exact numbers depend on the orderings of the
+   source and are not pinned) *)
+Example c06_live_witness :
+  (Nat.leb 50 (length dom2) && Nat.leb 50 (length (filter peer_busy reachable_set)) && Nat.leb 5 (length dom3)
+   && Nat.leb 3 (fold_left Nat.max (map snd tab2) 0))%bool = true.
 Proof. vm_compute. reflexivity. Qed.
